@@ -25,6 +25,9 @@ pub type Result<T> = core::result::Result<T, SvgdxError>;
 //@item src/position.rs :: struct BoundingBox
 //@ keep-derive Clone Copy
 //@end
+//@item src/position.rs :: enum ScalarSpec
+//@ keep-derive Clone Copy
+//@end
 //@item src/connector.rs :: enum Direction
 //@ keep-derive Clone Copy
 //@end
@@ -66,16 +69,29 @@ pub open spec fn candidates(c: ConnectionType) -> Seq<LocSpec> {
 }
 
 pub uninterp spec fn bbox_spec(ctx: Ctx, e: SvgElement) -> Option<BoundingBox>;
+/// get_element_bbox returns Ok (with bbox_spec) rather than an error
+pub uninterp spec fn bbox_ok(ctx: Ctx, e: SvgElement) -> bool;
 impl Ctx {
     #[verifier::external_body]
     pub fn get_element_bbox(&self, e: &SvgElement) -> (r: Result<Option<BoundingBox>>)
-        ensures r is Ok ==> r->Ok_0 == bbox_spec(*self, *e)
+        ensures r is Ok ==> r->Ok_0 == bbox_spec(*self, *e), r is Ok == bbox_ok(*self, *e)
     { unimplemented!() }
 }
-impl SvgElement { #[verifier::external_body] pub fn to_string(&self) -> String { unimplemented!() } }
+/// the element's OWN box (SvgElement::bbox): without the use/reuse translation and clip-path of the context's box
+pub uninterp spec fn own_bbox_spec(e: SvgElement) -> Option<BoundingBox>;
+impl SvgElement {
+    #[verifier::external_body] pub fn to_string(&self) -> String { unimplemented!() }
+    #[verifier::external_body]
+    pub fn bbox(&self) -> (r: Result<Option<BoundingBox>>) ensures r is Ok ==> r->Ok_0 == own_bbox_spec(*self) { unimplemented!() }
+}
 impl BoundingBox {
     #[verifier::external_body]
     pub fn locspec(&self, ls: LocSpec) -> (r: (R32, R32)) ensures (val(r.0), val(r.1)) == loc_point(*self, ls) { unimplemented!() }
+    /// proved in U-geom (scalar table); only the four edges are needed here
+    #[verifier::external_body]
+    pub fn scalarspec(&self, ss: ScalarSpec) -> (r: R32)
+        ensures ss is Minx ==> r == self.x1, ss is Maxx ==> r == self.x2, ss is Miny ==> r == self.y1, ss is Maxy ==> r == self.y2
+    { unimplemented!() }
 }
 pub uninterp spec fn max_val() -> real;
 /// f32::MAX: just a (large) constant in the real model
@@ -126,6 +142,7 @@ impl ConnectionType {
 //@       <= d2(loc_point(bbox_spec(*context, *this)->Some_0, #[trigger] candidates(conn_type)[i]), (val(point.0), val(point.1)))     @@C13.closest.min
 //@end
 
+pub open spec fn overlap_mid(a_lo: real, a_hi: real, b_lo: real, b_hi: real) -> real { (rmax(a_lo, b_lo) + rmin(a_hi, b_hi)) / 2real }
 pub open spec fn dd(a: BoundingBox, b: BoundingBox, la: LocSpec, lb: LocSpec) -> real { d2(loc_point(a, la), loc_point(b, lb)) }
 
 //@item src/connector.rs :: fn shortest_link
@@ -265,6 +282,39 @@ impl Connector {
 //@ - r is Ok ==> ({ let n = r->Ok_0@.len() as int;
 //@       (vertical_dir(end_dir_some) ==> val(r->Ok_0@[n - 1].0) == val(r->Ok_0@[n - 2].0))
 //@       && (!vertical_dir(end_dir_some) ==> val(r->Ok_0@[n - 1].1) == val(r->Ok_0@[n - 2].1)) })     @@C13.corner.enters_perpendicular
+//@end
+
+// the midpoint of the overlap for horizontal / vertical connectors: the boxes are the SAME boxes
+// the endpoints are taken from (the context's bounding box of the referenced element)
+//@item src/connector.rs :: impl Connector :: fn render
+//@ fragment-name h_midpoint
+//@ fragment-inner
+//@ fragment-from <<<            ConnectionType::Horizontal => {>>>
+//@ fragment-to <<<                SvgElement::new(>>>
+//@ fragment-head <<<fn h_midpoint(&self, ctx: &Ctx, y1: f32) -> Result<f32> {>>>
+//@ fragment-tail <<<    Ok(midpoint)\n}>>>
+//@ ensures
+//@ - r is Ok && (self.start_el is None || self.end_el is None) ==> r->Ok_0 == y1     @@C13.hv.literal
+//@ - r is Ok && self.start_el is Some && self.end_el is Some ==> bbox_spec(*ctx, self.start_el->Some_0) is Some && bbox_spec(*ctx, self.end_el->Some_0) is Some
+//@       && ({ let a = bbox_spec(*ctx, self.start_el->Some_0)->Some_0; let b = bbox_spec(*ctx, self.end_el->Some_0)->Some_0;
+//@             val(r->Ok_0) == overlap_mid(val(a.y1), val(a.y2), val(b.y1), val(b.y2)) })     @@C13.h.overlap_mid
+//@ - self.start_el is Some && self.end_el is Some && bbox_spec(*ctx, self.start_el->Some_0) is Some && bbox_spec(*ctx, self.end_el->Some_0) is Some
+//@       && bbox_ok(*ctx, self.start_el->Some_0) && bbox_ok(*ctx, self.end_el->Some_0) ==> r is Ok     @@C13.h.drawn
+//@end
+//@item src/connector.rs :: impl Connector :: fn render
+//@ fragment-name v_midpoint
+//@ fragment-inner
+//@ fragment-from <<<            ConnectionType::Vertical => {>>>
+//@ fragment-to <<<                SvgElement::new(>>>
+//@ fragment-head <<<fn v_midpoint(&self, ctx: &Ctx, x1: f32) -> Result<f32> {>>>
+//@ fragment-tail <<<    Ok(midpoint)\n}>>>
+//@ ensures
+//@ - r is Ok && (self.start_el is None || self.end_el is None) ==> r->Ok_0 == x1     @@C13.hv.literal
+//@ - r is Ok && self.start_el is Some && self.end_el is Some ==> bbox_spec(*ctx, self.start_el->Some_0) is Some && bbox_spec(*ctx, self.end_el->Some_0) is Some
+//@       && ({ let a = bbox_spec(*ctx, self.start_el->Some_0)->Some_0; let b = bbox_spec(*ctx, self.end_el->Some_0)->Some_0;
+//@             val(r->Ok_0) == overlap_mid(val(a.x1), val(a.x2), val(b.x1), val(b.x2)) })     @@C13.v.overlap_mid
+//@ - self.start_el is Some && self.end_el is Some && bbox_spec(*ctx, self.start_el->Some_0) is Some && bbox_spec(*ctx, self.end_el->Some_0) is Some
+//@       && bbox_ok(*ctx, self.start_el->Some_0) && bbox_ok(*ctx, self.end_el->Some_0) ==> r is Ok     @@C13.v.drawn
 //@end
 
 //@item src/connector.rs :: impl Connector :: fn loc_to_dir
